@@ -60,7 +60,7 @@ func H_C12_ends() {
 	K := 3
 	ncause := 5
 	if tierThorough() {
-		K, ncause = 4, 13
+		K, ncause = 3, 13 // K=4 over 13 causes exceeds the 2*10^6 path budget (measured): the cause set is widened instead
 	}
 	fx := vNewFixture(func() []uint16 { return []uint16{0, 1} })
 	fx.cl.high = [vTotalVB]uint64{^uint64(0), ^uint64(0), 0, 0}
@@ -157,4 +157,35 @@ func H_C12_overlap() {
 	quiesce()
 	_, n = fx.s.GetMetric()
 	assert(n == 0 && vStopClosed(fx.stop), "the client stops once every vBucket has ended for good")
+}
+
+// H_C12_earlyend: a vBucket ends for good while Open() is still opening the
+// others (finite mode with a checkpoint already at the high seqno: the server
+// ends the stream at once).
+func H_C12_earlyend() {
+	setPreempt(1)
+	fx := vNewFixture(func() []uint16 { return []uint16{0, 1} })
+	fx.cl.high = [vTotalVB]uint64{^uint64(0), ^uint64(0), 0, 0}
+	fx.cl.openErr = func(vbID uint16, nth int) error {
+		if vbID == 0 && nth == 0 {
+			obs, _ := fx.s.observers.Load(0)
+			if nondetBool("inline") {
+				obs.End(models.DcpStreamEnd{VbID: 0}, nil)
+			} else {
+				spawnEnv(func() { obs.End(models.DcpStreamEnd{VbID: 0}, nil) })
+			}
+		}
+		return nil
+	}
+	fx.s.Open()
+	quiesce()
+	_, n := fx.s.GetMetric()
+	assert(n == 1, "a vBucket that ended during start-up is not counted as streaming")
+	assert(!vStopClosed(fx.stop), "the other vBucket is still streaming")
+	cover("early-end")
+	o1, _ := fx.s.observers.Load(1)
+	o1.End(models.DcpStreamEnd{VbID: 1}, nil)
+	quiesce()
+	_, n = fx.s.GetMetric()
+	assert(n == 0 && vStopClosed(fx.stop), "the client stops once the last vBucket has ended for good")
 }
